@@ -394,6 +394,9 @@ def narrow32 (b : Nat) : Nat :=
 /-- what the text "NaN" parses to before `parseValue` replaces it by the invalid value -/
 def canonNaN64 : Nat := 0x7FF8000000000001
 
+/-- "contains a '.'": what sends a text through the reader's scaled path -/
+def hasDot (s : Txt) : Bool := s.contains 46
+
 /-- `parseValue(piece, baseType, profileType, scale, offset, units)` -/
 def parseAtom (ar : Arith) (a : Atom) (bt : Nat) (isBool : Bool) (scale offset : Nat) (units : Txt) : R Value :=
   if let .raw t := a then ar.raw t bt isBool scale offset units else
@@ -436,6 +439,7 @@ def parseAtom (ar : Arith) (a : Atom) (bt : Nat) (isBool : Bool) (scale offset :
     else if bt == btFloat32 || bt == btFloat64 || btIsUint8 bt || bt == btSint8 || bt == btSint16 || bt == btUint16 || bt == btUint16z ||
       bt == btSint32 || bt == btUint32 || bt == btUint32z || bt == btSint64 || bt == btUint64 || bt == btUint64z then
       (if s.isEmpty then .err else .unmodelled)
+    else if hasDot s then .unmodelled      -- no case of the switch, but a text with a '.' goes through ParseFloat first
     else .ok .invalid
   | .scaled v sc off =>
     if sc == scale && off == offset then
